@@ -196,7 +196,7 @@ def run(rep, tier, seed, keep=False):
         events = []
         desc = {}
         gen = Gen(rng, 4)
-        n = 8000 if quick else 300000
+        n = 8000 if quick else 150000
         fixed = [(a, dd) for a in fixed_probes() for dd in DOCS]
         for i in range(n):
             d = rng.choice([2, 3, 3, 4] if quick else [2, 3, 4, 4, 5, 6])
